@@ -1268,3 +1268,243 @@ Proof. vm_compute. auto. Qed.
 Example w5_power_basis_not_ring :
   get_mult_table (identity fopsQc 3) [1; 1; 0; 2] = Panic PAssert.
 Proof. vm_compute. reflexivity. Qed.
+
+(** * Eighth wave: the maximal order is unique and contains every order; the discriminant does not depend on the generator
+    (theta + k, -theta, c theta)
+
+    [weak_order f n o] (W8C06Props): [o] is an n x n rational matrix (no normal form required) whose rows span a lattice that
+    contains 1 and on which [Order::get_mult_table] returns (closed under multiplication, integer structure constants);
+    every [is_order] is one.  [no_larger_order f n o]: every over-order of [o] lies in the lattice of [o] -- the conclusion of
+    [find_integral_basis_maximal_all].  [lattice_sub n o1 o2]: every row of [o1] is an integer combination of the rows of [o2].
+    f need not be irreducible: the argument is that of commutative algebras of finite rank over Q.
+    Proofs: W8C06Alg (Q[x]/(f) on coordinate vectors, change of generator, trace form), W8C06Hnf (basis of a finitely generated
+    subgroup of Z^n, from C02), W8C06Lat (product module O1 O2), W8C06Trans, W8C06Bridge, W8C06Main. *)
+From RNT.Refine Require Import W8C06Main W8C06Props.
+
+(** [P] is_order_weak_order *)
+Theorem is_order_weak_order : forall f n o, is_order f n o -> weak_order f n o.
+Proof. exact W8C06Props.is_order_weak_order. Qed.
+
+(** [P] maximal_order_contains: an order O1 without larger order contains EVERY order O2 of Q[x]/(f) (not only those that contain
+    O1).  Proof: the product module O1 O2 (integer combinations of the products w_i v_j) contains O1 and O2 (each contains 1), is
+    closed under multiplication because the algebra is commutative ((O1 O2)(O1 O2) = (O1 O1)(O2 O2)), is finitely generated of
+    full rank, hence has a basis ([HNF::new] of its generators after clearing denominators: C02 hnf_new_correct) on which
+    [get_mult_table] returns (C14 get_mult_table_iff): it is an over-order of O1, so it lies in O1. *)
+Theorem maximal_order_contains : forall f n O1 O2,
+  PolyZ.canonZ f = true -> length f = S n -> (1 <= n)%nat ->
+  weak_order f n O1 -> no_larger_order f n O1 -> weak_order f n O2 -> lattice_sub n O2 O1.
+Proof. exact W8C06Props.maximal_order_contains. Qed.
+
+(** [P] maximal_order_unique: two orders without larger order have the same lattice *)
+Theorem maximal_order_unique : forall f n O1 O2,
+  PolyZ.canonZ f = true -> length f = S n -> (1 <= n)%nat ->
+  weak_order f n O1 -> no_larger_order f n O1 -> weak_order f n O2 -> no_larger_order f n O2 ->
+  lattice_sub n O1 O2 /\ lattice_sub n O2 O1.
+Proof. exact W8C06Props.maximal_order_unique. Qed.
+
+(** [P] driver_largest_order: under the hypotheses of [find_integral_basis_maximal_all], the order returned by the driver contains
+    every order of Q[x]/(f): it is the largest order (for irreducible f: the ring of integers) *)
+Theorem driver_largest_order : forall m f n O O2,
+  PolyZ.canonZ f = true -> length f = S n -> (1 <= n)%nat -> 2 * Z.of_nat n < two64 ->
+  (forall o0 d0, non_monic_initial_order f = Done o0 -> order_disc m o0 f = Done d0 ->
+     d0 <> 0 /\ Z.log2 (Z.abs d0) < two64) ->
+  find_integral_basis m f = Done O -> weak_order f n O2 -> lattice_sub n O2 O.
+Proof. exact W8C06Props.driver_largest_order. Qed.
+
+(** [P] maximal_order_same_stored: ... hence (C15 [order_canonical]: HNF canonicity of [Order::from_basis]) [from_basis] has the same
+    outcome on any two orders without larger order, and two such orders that are stored normal forms (fixed points of [from_basis])
+    are EQUAL as lists of rationals *)
+From RNT.Refine Require W8C06Canon.
+Theorem maximal_order_same_stored : forall f n O1 O2,
+  PolyZ.canonZ f = true -> length f = S n -> (1 <= n)%nat ->
+  weak_order f n O1 -> no_larger_order f n O1 -> weak_order f n O2 -> no_larger_order f n O2 ->
+  from_basis O1 = from_basis O2.
+Proof. exact W8C06Canon.maximal_order_same_stored. Qed.
+
+Theorem maximal_order_stored_equal : forall f n O1 O2,
+  PolyZ.canonZ f = true -> length f = S n -> (1 <= n)%nat ->
+  weak_order f n O1 -> no_larger_order f n O1 -> weak_order f n O2 -> no_larger_order f n O2 ->
+  from_basis O1 = Done O1 -> from_basis O2 = Done O2 -> O1 = O2.
+Proof. exact W8C06Canon.maximal_order_stored_equal. Qed.
+
+(** the changes of generator on coefficient lists: [poly_shift f k] = f(x + k) (minimal polynomial of theta - k; k < 0 gives
+    theta + |k|), by Horner's rule with the model's own [padd] / [pmul]; [poly_scale f c] = c^n f(x / c) = sum a_i c^(n-i) x^i
+    (minimal polynomial of c theta, same leading coefficient; c = -1: (-1)^n f(-x), minimal polynomial of -theta) *)
+Theorem poly_shift_eval : forall f k x, pof opsZ (poly_shift f k) x = pof opsZ f (x + k).
+Proof. exact W8C06Props.poly_shift_eval. Qed.
+
+Theorem poly_shift_length : forall f k, PolyZ.canonZ f = true ->
+  PolyZ.canonZ (poly_shift f k) = true /\ length (poly_shift f k) = length f.
+Proof. exact W8C06Props.poly_shift_length. Qed.
+
+Theorem poly_scale_length : forall f c, PolyZ.canonZ f = true ->
+  PolyZ.canonZ (poly_scale f c) = true /\ length (poly_scale f c) = length f.
+Proof. exact W8C06Props.poly_scale_length. Qed.
+
+Example poly_shift_scale_ex :
+  poly_shift [-5; 0; 1] 1 = [-4; 2; 1] /\ poly_shift [-8; -2; -1; 1] (-2) = [-16; 14; -7; 1] /\
+  poly_scale [-2; 0; 0; 1] (-1) = [2; 0; 0; 1] /\ poly_scale [-5; 0; 1] 2 = [-20; 0; 1] /\
+  poly_scale [1; 1; 0; 2] 3 = [27; 9; 0; 2] /\ poly_shift [1; 1; 0; 2] 1 = [4; 7; 6; 2].
+Proof. vm_compute. repeat split. Qed.
+
+(** [P] disc_invariant_shift (theta + k): for f of degree n >= 1 and g = f(x + k), both under the hypotheses of
+    [find_integral_basis_maximal_all] (non-zero discriminant of the starting order with fewer than 2^64 bits): the orders returned
+    by the driver for f and for g have the same [order_disc] -- the discriminant the code reports does not depend on which of the
+    two polynomials defines the field.  Proof: x |-> x - k is an isomorphism Q[x]/(g) -> Q[x]/(f) with matrix Phi on coordinates;
+    it is multiplicative, so Phi maps the maximal order of g onto a maximal order of f, which has the lattice of the driver's
+    result for f ([maximal_order_unique]); the regular representations are conjugate by Phi, so the trace forms of the power bases
+    satisfy P_g = Phi P_f Phi^T; both discriminants are det(B)^2 det(P) (C15 order_disc_trace_form, trZ_pform) and two bases of
+    one lattice differ by an integer matrix of determinant +-1. *)
+Theorem disc_invariant_shift : forall m f k n Of Og,
+  PolyZ.canonZ f = true -> length f = S n -> (1 <= n)%nat -> 2 * Z.of_nat n < two64 ->
+  (forall o0 d0, non_monic_initial_order f = Done o0 -> order_disc m o0 f = Done d0 ->
+     d0 <> 0 /\ Z.log2 (Z.abs d0) < two64) ->
+  (forall o0 d0, non_monic_initial_order (poly_shift f k) = Done o0 -> order_disc m o0 (poly_shift f k) = Done d0 ->
+     d0 <> 0 /\ Z.log2 (Z.abs d0) < two64) ->
+  find_integral_basis m f = Done Of -> find_integral_basis m (poly_shift f k) = Done Og ->
+  exists d, order_disc m Of f = Done d /\ order_disc m Og (poly_shift f k) = Done d.
+Proof. exact W8C06Props.disc_invariant_shift. Qed.
+
+(** [P] disc_invariant_scale (c theta, c a non-zero integer; the starting orders differ by the index |c|^(n(n-1)/2)) and
+    disc_invariant_neg (-theta: c = -1) *)
+Theorem disc_invariant_scale : forall m f c n Of Og,
+  PolyZ.canonZ f = true -> length f = S n -> (1 <= n)%nat -> 2 * Z.of_nat n < two64 -> c <> 0 ->
+  (forall o0 d0, non_monic_initial_order f = Done o0 -> order_disc m o0 f = Done d0 ->
+     d0 <> 0 /\ Z.log2 (Z.abs d0) < two64) ->
+  (forall o0 d0, non_monic_initial_order (poly_scale f c) = Done o0 -> order_disc m o0 (poly_scale f c) = Done d0 ->
+     d0 <> 0 /\ Z.log2 (Z.abs d0) < two64) ->
+  find_integral_basis m f = Done Of -> find_integral_basis m (poly_scale f c) = Done Og ->
+  exists d, order_disc m Of f = Done d /\ order_disc m Og (poly_scale f c) = Done d.
+Proof. exact W8C06Props.disc_invariant_scale. Qed.
+
+Theorem disc_invariant_neg : forall m f n Of Og,
+  PolyZ.canonZ f = true -> length f = S n -> (1 <= n)%nat -> 2 * Z.of_nat n < two64 ->
+  (forall o0 d0, non_monic_initial_order f = Done o0 -> order_disc m o0 f = Done d0 ->
+     d0 <> 0 /\ Z.log2 (Z.abs d0) < two64) ->
+  (forall o0 d0, non_monic_initial_order (poly_scale f (-1)) = Done o0 -> order_disc m o0 (poly_scale f (-1)) = Done d0 ->
+     d0 <> 0 /\ Z.log2 (Z.abs d0) < two64) ->
+  find_integral_basis m f = Done Of -> find_integral_basis m (poly_scale f (-1)) = Done Og ->
+  exists d, order_disc m Of f = Done d /\ order_disc m Og (poly_scale f (-1)) = Done d.
+Proof. exact W8C06Props.disc_invariant_neg. Qed.
+
+(** [P] the same on the entry point [ib_find] (basis, discriminant, index over the starting order) that the correspondence check
+    runs: the two reported discriminants are equal *)
+Theorem ib_find_disc_shift : forall m f k n Of df jf Og dg jg,
+  PolyZ.canonZ f = true -> length f = S n -> (1 <= n)%nat -> 2 * Z.of_nat n < two64 ->
+  (forall o0 d0, non_monic_initial_order f = Done o0 -> order_disc m o0 f = Done d0 ->
+     d0 <> 0 /\ Z.log2 (Z.abs d0) < two64) ->
+  (forall o0 d0, non_monic_initial_order (poly_shift f k) = Done o0 -> order_disc m o0 (poly_shift f k) = Done d0 ->
+     d0 <> 0 /\ Z.log2 (Z.abs d0) < two64) ->
+  ib_find m f = Done (Of, df, jf) -> ib_find m (poly_shift f k) = Done (Og, dg, jg) -> df = dg.
+Proof. exact W8C06Props.ib_find_disc_shift. Qed.
+
+Theorem ib_find_disc_scale : forall m f c n Of df jf Og dg jg,
+  PolyZ.canonZ f = true -> length f = S n -> (1 <= n)%nat -> 2 * Z.of_nat n < two64 -> c <> 0 ->
+  (forall o0 d0, non_monic_initial_order f = Done o0 -> order_disc m o0 f = Done d0 ->
+     d0 <> 0 /\ Z.log2 (Z.abs d0) < two64) ->
+  (forall o0 d0, non_monic_initial_order (poly_scale f c) = Done o0 -> order_disc m o0 (poly_scale f c) = Done d0 ->
+     d0 <> 0 /\ Z.log2 (Z.abs d0) < two64) ->
+  ib_find m f = Done (Of, df, jf) -> ib_find m (poly_scale f c) = Done (Og, dg, jg) -> df = dg.
+Proof. exact W8C06Props.ib_find_disc_scale. Qed.
+
+(** [P] disc_invariant_recip (1 / theta): g = the reversed coefficient list, x^n f(1/x), for f(0) <> 0.  Here x |-> x^-1 mod f,
+    x^-1 = -(a_1 + a_2 x + .. + a_n x^(n-1)) / a_0; g(x^-1) = 0 mod f because x^n g(x^-1) = f and x is invertible; the inverse
+    substitution is x |-> x^-1 mod g, and (x^-1 mod f)(x^-1 mod g) = x mod g (W8C06Recip). *)
+Theorem disc_invariant_recip : forall m f n Of Og,
+  PolyZ.canonZ f = true -> length f = S n -> (1 <= n)%nat -> 2 * Z.of_nat n < two64 -> nth 0 f 0 <> 0 ->
+  (forall o0 d0, non_monic_initial_order f = Done o0 -> order_disc m o0 f = Done d0 ->
+     d0 <> 0 /\ Z.log2 (Z.abs d0) < two64) ->
+  (forall o0 d0, non_monic_initial_order (rev f) = Done o0 -> order_disc m o0 (rev f) = Done d0 ->
+     d0 <> 0 /\ Z.log2 (Z.abs d0) < two64) ->
+  find_integral_basis m f = Done Of -> find_integral_basis m (rev f) = Done Og ->
+  exists d, order_disc m Of f = Done d /\ order_disc m Og (rev f) = Done d.
+Proof. exact W8C06Props.disc_invariant_recip. Qed.
+
+Theorem ib_find_disc_recip : forall m f n Of df jf Og dg jg,
+  PolyZ.canonZ f = true -> length f = S n -> (1 <= n)%nat -> 2 * Z.of_nat n < two64 -> nth 0 f 0 <> 0 ->
+  (forall o0 d0, non_monic_initial_order f = Done o0 -> order_disc m o0 f = Done d0 ->
+     d0 <> 0 /\ Z.log2 (Z.abs d0) < two64) ->
+  (forall o0 d0, non_monic_initial_order (rev f) = Done o0 -> order_disc m o0 (rev f) = Done d0 ->
+     d0 <> 0 /\ Z.log2 (Z.abs d0) < two64) ->
+  ib_find m f = Done (Of, df, jf) -> ib_find m (rev f) = Done (Og, dg, jg) -> df = dg.
+Proof. exact W8C06Props.ib_find_disc_recip. Qed.
+
+Theorem rev_canon_length : forall f, nth 0 f 0 <> 0 -> PolyZ.canonZ (rev f) = true /\ length (rev f) = length f.
+Proof. exact W8C06Props.rev_canon_length. Qed.
+
+(** ** Non-vacuity (eighth wave) *)
+
+(** the hypotheses on x^2 - 5 and its shift x^2 + 2x - 4, on x^3 - 2 and x^3 + 2 (-theta), on x^2 - 5 and x^2 - 20 (2 theta), and on
+    the non-monic 2x^3 + x + 1 and its shift by 1: canonical, the discriminant of the starting order is non-zero with few bits *)
+Example w8_hyp : forall f, In f [[-5; 0; 1]; poly_shift [-5; 0; 1] 1; [-2; 0; 0; 1]; poly_scale [-2; 0; 0; 1] (-1);
+                                poly_scale [-5; 0; 1] 2; [1; 1; 0; 2]; poly_shift [1; 1; 0; 2] 1] ->
+  PolyZ.canonZ f = true /\ (1 <= length f - 1)%nat /\
+  forall m o0 d0, non_monic_initial_order f = Done o0 -> order_disc m o0 f = Done d0 ->
+    d0 <> 0 /\ Z.log2 (Z.abs d0) < two64.
+Proof.
+  intros f [<-|[<-|[<-|[<-|[<-|[<-|[<-|[]]]]]]]];
+    (split; [reflexivity|]; split; [vm_compute; lia|]);
+    intros m o0 d0 N0 D0; vm_compute in N0; injection N0 as <-;
+    destruct m; vm_compute in D0; injection D0 as <-; split; try discriminate; reflexivity.
+Qed.
+
+(** what the model returns: discriminant 5 for x^2 - 5 (index 2), x^2 + 2x - 4 (index 2) and x^2 - 20 (index 4); -108 for x^3 - 2 and
+    x^3 + 2; -116 for 2x^3 + x + 1 and for its shift 2x^3 + 6x^2 + 7x + 4 *)
+Example w8_results :
+  match ib_find Checked [-5; 0; 1], ib_find Checked (poly_shift [-5; 0; 1] 1), ib_find Checked (poly_scale [-5; 0; 1] 2) with
+  | Done (_, d1, i1), Done (_, d2, i2), Done (_, d3, i3) =>
+      (d1 =? 5) && (i1 =? 2) && (d2 =? 5) && (i2 =? 2) && (d3 =? 5) && (i3 =? 4)
+  | _, _, _ => false
+  end = true /\
+  match ib_find Checked [-2; 0; 0; 1], ib_find Checked (poly_scale [-2; 0; 0; 1] (-1)) with
+  | Done (_, d1, _), Done (_, d2, _) => (d1 =? -108) && (d2 =? -108)
+  | _, _ => false
+  end = true /\
+  match ib_find Checked [1; 1; 0; 2], ib_find Checked (poly_shift [1; 1; 0; 2] 1) with
+  | Done (_, d1, _), Done (_, d2, _) => (d1 =? -116) && (d2 =? -116)
+  | _, _ => false
+  end = true.
+Proof. vm_compute. repeat split. Qed.
+
+(** [maximal_order_contains] / [driver_largest_order] are about more than over-orders: <1, (1 - sqrt 5)/2> (a basis that is not a
+    stored normal form: negative diagonal) and Z[sqrt 5] are orders of Q[x]/(x^2 - 5) in the sense of [weak_order]; neither is
+    assumed to contain the other *)
+Example w8_weak_orders :
+  let o1 := [[Q2Qc 1; Q2Qc 0]; [Q2Qc (1 # 2); Q2Qc (-1 # 2)]] in
+  let o2 := [[Q2Qc 1; Q2Qc 0]; [Q2Qc 0; Q2Qc 1]] in
+  weak_order [-5; 0; 1] 2 o1 /\ weak_order [-5; 0; 1] 2 o2.
+Proof.
+  split; (split; [reflexivity|]; split; [repeat constructor|]; split; [|vm_compute; eexists; reflexivity]);
+    exists [1; 0]; (split; [reflexivity|]); intros [|[|j]] Hj; try (apply Qc_is_canon; reflexivity); exfalso; lia.
+Qed.
+
+(** 1 / theta: the hypotheses on -5x^2 + 1 (reversed x^2 - 5), -2x^3 + 1 (reversed x^3 - 2) and -8x^3 - 2x^2 - x + 1 (reversed
+    Dedekind cubic), and the discriminants the model returns on them: 5, -108, -503, as for x^2 - 5, x^3 - 2 and the Dedekind cubic *)
+Example w8_recip_hyp : forall f, In f [rev [-5; 0; 1]; rev [-2; 0; 0; 1]; rev [-8; -2; -1; 1]] ->
+  PolyZ.canonZ f = true /\ (1 <= length f - 1)%nat /\
+  forall m o0 d0, non_monic_initial_order f = Done o0 -> order_disc m o0 f = Done d0 ->
+    d0 <> 0 /\ Z.log2 (Z.abs d0) < two64.
+Proof.
+  intros f [<-|[<-|[<-|[]]]];
+    (split; [reflexivity|]; split; [vm_compute; lia|]);
+    intros m o0 d0 N0 D0; vm_compute in N0; injection N0 as <-;
+    destruct m; vm_compute in D0; injection D0 as <-; split; try discriminate; reflexivity.
+Qed.
+
+Example w8_recip_results :
+  match ib_find Checked (rev [-5; 0; 1]), ib_find Checked (rev [-2; 0; 0; 1]), ib_find Checked (rev [-8; -2; -1; 1]),
+        ib_find Checked [-8; -2; -1; 1] with
+  | Done (_, d1, _), Done (_, d2, _), Done (_, d3, _), Done (_, d4, _) => (d1 =? 5) && (d2 =? -108) && (d3 =? -503) && (d4 =? -503)
+  | _, _, _, _ => false
+  end = true.
+Proof. vm_compute. reflexivity. Qed.
+
+(** [maximal_order_same_stored] concretely: the maximal order of Q(sqrt 5) given by the basis 1, (1 - sqrt 5)/2 (not a normal form) is
+    stored by [from_basis] exactly as the driver's result for x^2 - 5, which is a fixed point of [from_basis] *)
+Example w8_stored :
+  match find_integral_basis Checked [-5; 0; 1], from_basis [[Q2Qc 1; Q2Qc 0]; [Q2Qc (1 # 2); Q2Qc (-1 # 2)]] with
+  | Done om, Done o' => map (map this) om = map (map this) o' /\
+                        match from_basis om with Done o'' => map (map this) o'' = map (map this) om | _ => False end
+  | _, _ => False
+  end.
+Proof. vm_compute. split; reflexivity. Qed.
